@@ -1142,7 +1142,8 @@ func runC10(tier string, args []string) {
 	run.Rule("Convention (from forwardMessage): a datagram with hop budget h crosses at most h links in total (the origin's own transmission counts; h=0 never leaves the origin, which reports the expiry itself); its k-th link traversal carries TTL byte h-k; a destination d links away along the walk of the nodes' current tables is reached iff d<=h, else the node at distance h on that walk sends 'message expired' to the sending socket and to nobody else; Ping(h) = (target,nil) iff d<=h else (node at distance h,'message expired'); Traceroute = [self, hop1, ..., target] with every step a least-cost next hop per the harness's Floyd-Warshall oracle. " +
 		"Cases: seeded chains/rings/trees/random weighted graphs of 2-8 real nodes, after the tables settled (every node knows the full real adjacency; tables identical at 3 looks): every ordered pair x budgets {0,1,2,d-1,d,d+1,30,255} (thorough: all 0..255 on 10 meshes) as datagrams with a unique id in the payload counted on the memnet taps, the same pairs as Ping(h) and Traceroute. " +
 		"Loops: (reflect2) a scripted peer X on real node A advertises phantom Z behind itself and hands every datagram for Z straight back unchanged: A<->X; (reflect3) X on B, a second scripted session Y on A re-injects what X received: A->B->X~Y->A; senders = every real node incl. 0-2 extra nodes attached outside the loop; real-node forwards (link taps + what the scripted peers receive) must be <= h with TTL h-k, the flow must stop, and the sender must get 'message expired' from the real node holding the packet when the budget ran out; (micro) ring with the A-T link cut while control messages on B's links are delayed, so A and B point at each other: only <= h and the TTL decrement are judged. " +
-		"distinct_nontrivial = distinct (route length d or distance to the loop, relation of h to it (<,=,>), loop kind) with d>=2 or a loop")
+		"Extras: chains whose length equals the configured forwarding-hop maximum (ping and traceroute at the limit); raw datagrams injected by a scripted backend peer with every source service incl. the reserved ones, phantom/real sources and TTL bytes {0,1,2,3,255}: at most TTL further crossings, each one lower; forwarding conservation (a node only sends what it originated or received with TTL+1). " +
+		"distinct_nontrivial = distinct (route length d or distance to the loop, relation of h to it (<,=,>), loop kind) with d>=2 or a loop, plus tight-limit chains and injected (source service, TTL relation) classes")
 	run.Assume("expiry notices and reach are judged on loss-free links and only while the tables observed before and after the trial are identical; inside micro-loop windows only the <= h bound and the TTL decrement are judged")
 	rng := rand.New(rand.NewSource(run.Seed*7919 + 10))
 	nMesh := run.Pick(12, 150)
@@ -1221,6 +1222,9 @@ func runC10(tier string, args []string) {
 		})
 	}
 	wg.Wait()
+	if len(args) < 2 {
+		runC10Extra(run, rng)
+	}
 	collectRaces(run, workDir())
 	run.Finish(run.Pick(14, 24))
 }
